@@ -612,7 +612,7 @@ func partB(run *vh.Run) {
 		monitors     int
 	}
 	var hists []hist
-	// directed histories first: the key collision (F-C01-1), blank-padded route tags (repaired F-C01-2) and their neighbours
+	// directed histories first: colliding node/id pairs (repaired F-C01-1), blank-padded route tags (repaired F-C01-2) and their neighbours
 	okc := func(in inst, st string) *api.HealthCheck { return svcCheck(in, "service:"+in.sid, st) }
 	colA := inst{node: "a", sid: "b.c", name: "svc-a", tags: []string{"urlprefix-/one"}, addr: "10.0.0.1", port: 8001}
 	colB := inst{node: "a.b", sid: "c", name: "svc-a", tags: []string{"urlprefix-/two"}, addr: "10.0.0.2", port: 8002}
